@@ -526,4 +526,372 @@ theorem handleRx_eq {w : World} {i : Nat} {trx : Trx} (hw : w.trxs[i]? = some tr
       rfl
     · rw [if_pos hs, if_neg hs]
 
+/-! ### `power_event_handler` -/
+
+/-- transceivers `power_event_handler` of `i` updates -/
+def powerList (i : Nat) (self : Trx) : List Nat :=
+  if self.childMgt && self.childIdx == 0 then i :: self.children else [i]
+
+/-- the per-transceiver update of `power_event_handler` -/
+def powerSet (on : Bool) (t : Trx) : Trx :=
+  if on then { t with running := true }
+  else { t with running := false, txQueue := [], fh := none }
+
+def powerTrxs (w : World) (l : List Nat) (on : Bool) : World :=
+  l.foldl (fun w j => setTrx w j (powerSet on)) w
+
+/-- the clock links after the update of `power_event_handler` -/
+def powerLinks (links : List Nat) (i : Nat) (on : Bool) : List Nat :=
+  if ¬ on ∧ links.contains i then links.erase i
+  else if on ∧ ¬ links.contains i then links ++ [i]
+  else links
+
+/-- the world after `power_event_handler(on)` of transceiver `i` (= `self`) -/
+def powerWorld (w : World) (i : Nat) (self : Trx) (on : Bool) : World :=
+  let w1 := powerTrxs w (powerList i self) on
+  if ¬ self.hasClock then w1 else
+  let links := powerLinks w1.clkLinks i on
+  if ¬ w1.clkRunning ∧ links.length > 0 then
+    { w1 with clkLinks := links, clkRunning := true, clkSrc := some Gen.World.clckStart }
+  else if w1.clkRunning ∧ links.isEmpty then
+    { w1 with clkLinks := links, clkRunning := false }
+  else { w1 with clkLinks := links }
+
+theorem powerTrxs_clk (w : World) (l : List Nat) (on : Bool) :
+    (powerTrxs w l on).clkLinks = w.clkLinks ∧ (powerTrxs w l on).clkRunning = w.clkRunning ∧
+    (powerTrxs w l on).clkSrc = w.clkSrc := by
+  induction l generalizing w with
+  | nil => exact ⟨rfl, rfl, rfl⟩
+  | cons j l ih =>
+    have := ih (setTrx w j (powerSet on))
+    simpa [powerTrxs] using this
+
+theorem powerEvent_eq {w : World} {i : Nat} {self : Trx} (hw : w.trxs[i]? = some self) (on : Bool) :
+    powerEvent w i on = .ok (powerWorld w i self on) := by
+  unfold powerWorld
+  simp only [apply_ite (Except.ok (ε := Exc))]
+  unfold powerEvent
+  rw [hw]
+  rfl
+
+
+theorem powerSet_idem (on : Bool) (t : Trx) : powerSet on (powerSet on t) = powerSet on t := by
+  cases on <;> rfl
+
+theorem powerSet_wiring (on : Bool) (t : Trx) : wiring (powerSet on t) = wiring t := by
+  cases on <;> rfl
+
+theorem powerSet_running (on : Bool) (t : Trx) : (powerSet on t).running = on := by
+  cases on <;> rfl
+
+theorem powerSet_off (t : Trx) :
+    (powerSet false t).fh = none ∧ (powerSet false t).txQueue = [] ∧ (powerSet false t).running = false :=
+  ⟨rfl, rfl, rfl⟩
+
+theorem powerTrxs_getElem? (l : List Nat) (on : Bool) (w : World) (k : Nat) :
+    (powerTrxs w l on).trxs[k]? = if k ∈ l then (w.trxs[k]?).map (powerSet on) else w.trxs[k]? := by
+  induction l generalizing w with
+  | nil => simp [powerTrxs]
+  | cons j l ih =>
+    have e : powerTrxs w (j :: l) on = powerTrxs (setTrx w j (powerSet on)) l on := rfl
+    rw [e, ih, setTrx_getElem?]
+    by_cases hj : j = k
+    · subst hj
+      simp only [List.mem_cons, true_or, if_true]
+      split
+      · cases w.trxs[j]? with
+        | none => rfl
+        | some t => simp only [Option.map_some, powerSet_idem]
+      · rfl
+    · have hj' : ¬ k = j := fun h => hj h.symm
+      simp only [if_neg hj, List.mem_cons, hj', false_or]
+
+theorem powerTrxs_wiring (w : World) (l : List Nat) (on : Bool) :
+    (powerTrxs w l on).trxs.map wiring = w.trxs.map wiring := by
+  induction l generalizing w with
+  | nil => rfl
+  | cons j l ih =>
+    have e : powerTrxs w (j :: l) on = powerTrxs (setTrx w j (powerSet on)) l on := rfl
+    rw [e, ih]
+    exact map_modify_eq _ _ (powerSet_wiring on) _ _
+
+theorem powerWorld_trxs (w : World) (i : Nat) (self : Trx) (on : Bool) :
+    (powerWorld w i self on).trxs = (powerTrxs w (powerList i self) on).trxs := by
+  unfold powerWorld
+  simp only []
+  repeat' split
+  all_goals rfl
+
+theorem mem_powerList {w : World} {i : Nat} {self : Trx} (hw : w.trxs[i]? = some self) (k : Nat) :
+    k ∈ powerList i self ↔ affects w i k = true := by
+  unfold powerList affects
+  rw [hw]
+  by_cases hc : (self.childMgt && self.childIdx == 0) = true
+  · simp [hc]
+  · simp only [hc, Bool.false_eq_true, if_false, List.mem_singleton, Bool.false_and, Bool.or_false,
+      beq_iff_eq]
+
+/-- `running`, `fh`, `txQueue` of every transceiver after `power_event_handler` -/
+theorem powerWorld_getElem? {w : World} {i : Nat} {self : Trx} (hw : w.trxs[i]? = some self)
+    (on : Bool) (k : Nat) :
+    (powerWorld w i self on).trxs[k]? =
+      if affects w i k then (w.trxs[k]?).map (powerSet on) else w.trxs[k]? := by
+  rw [powerWorld_trxs, powerTrxs_getElem?]
+  by_cases h : affects w i k = true
+  · rw [if_pos ((mem_powerList hw k).mpr h), if_pos h]
+  · rw [if_neg (fun hm => h ((mem_powerList hw k).mp hm)), if_neg h]
+
+theorem powerWorld_wiring (w : World) (i : Nat) (self : Trx) (on : Bool) :
+    (powerWorld w i self on).trxs.map wiring = w.trxs.map wiring := by
+  rw [powerWorld_trxs, powerTrxs_wiring]
+
+theorem powerWorld_noclock {w : World} {i : Nat} {self : Trx} (on : Bool) (hc : self.hasClock = false) :
+    (powerWorld w i self on).clkLinks = w.clkLinks ∧ (powerWorld w i self on).clkRunning = w.clkRunning ∧
+    (powerWorld w i self on).clkSrc = w.clkSrc := by
+  unfold powerWorld
+  simp only [hc, Bool.false_eq_true, not_false_eq_true, if_true]
+  exact powerTrxs_clk _ _ _
+
+theorem powerWorld_clock {w : World} {i : Nat} {self : Trx} (on : Bool) (hc : self.hasClock = true) :
+    (powerWorld w i self on).clkLinks = powerLinks w.clkLinks i on ∧
+    ((powerWorld w i self on).clkRunning = true ↔ powerLinks w.clkLinks i on ≠ []) ∧
+    ((powerWorld w i self on).clkSrc =
+      if ¬ w.clkRunning ∧ powerLinks w.clkLinks i on ≠ [] then some Gen.World.clckStart else w.clkSrc) := by
+  obtain ⟨h1, h2, h3⟩ := powerTrxs_clk w (powerList i self) on
+  unfold powerWorld
+  simp only [hc, not_true_eq_false, if_false, h1, h2, h3]
+  generalize powerLinks w.clkLinks i on = links
+  cases hr : w.clkRunning <;> cases links <;> simp
+
+/-! ### POWERON / POWEROFF through `handle_rx` -/
+
+theorem parseCmd_poweron {w : World} {i : Nat} {trx : Trx} (hw : w.trxs[i]? = some trx) :
+    parseCmd w i [lit "POWERON"] =
+      if trx.running then .ok (w, (-1, []))
+      else if ¬ trx.ready then .ok (w, (-1, []))
+      else .ok (powerWorld w i trx true, (0, [])) := by
+  rw [parseCmd_eq]
+  have e : ctrlCmdHandler [lit "POWERON"] = .ok (none, none) := rfl
+  rw [e]
+  simp only [patched, parseTail, hw]
+  have e2 : commonCmd trx [lit "POWERON"] = if trx.running then .ok (.reply (-1) [])
+      else if ¬ trx.ready then .ok (.reply (-1) []) else .ok (.power true) := rfl
+  rw [e2]
+  split
+  · rfl
+  · split
+    · rfl
+    · simp only [bind, Except.bind, applyAction, powerEvent_eq hw, pure, Except.pure]
+
+theorem parseCmd_poweroff {w : World} {i : Nat} {trx : Trx} (hw : w.trxs[i]? = some trx) :
+    parseCmd w i [lit "POWEROFF"] = .ok (powerWorld w i trx false, (0, [])) := by
+  rw [parseCmd_eq]
+  have e : ctrlCmdHandler [lit "POWEROFF"] = .ok (none, none) := rfl
+  rw [e]
+  simp only [patched, parseTail, hw]
+  have e2 : commonCmd trx [lit "POWEROFF"] = .ok (.power false) := rfl
+  rw [e2]
+  simp only [bind, Except.bind, applyAction, powerEvent_eq hw, pure, Except.pure]
+
+theorem handleReq_poweron {w : World} {i : Nat} {trx : Trx} (hw : w.trxs[i]? = some trx) (a sp : Nat) :
+    handleReq w i trx a sp [lit "POWERON"] =
+      if accepted w i then
+        { world := powerWorld w i trx true, out := [⟨trx.ctrlPort, a, sp, rspPowerOnOk⟩] }
+      else { world := w, out := [⟨trx.ctrlPort, a, sp, rspPowerOnFail⟩] } := by
+  unfold handleReq accepted
+  rw [parseCmd_poweron hw, hw]
+  have r1 : respond trx a sp [lit "POWERON"] w (-1) [] =
+      { world := w, out := [⟨trx.ctrlPort, a, sp, rspPowerOnFail⟩] } := rfl
+  have r2 : ∀ w', respond trx a sp [lit "POWERON"] w' 0 [] =
+      { world := w', out := [⟨trx.ctrlPort, a, sp, rspPowerOnOk⟩] } := fun _ => rfl
+  cases hr : trx.running <;> cases hy : trx.ready <;> simp [r1, r2, hr, hy]
+
+theorem handleReq_poweroff {w : World} {i : Nat} {trx : Trx} (hw : w.trxs[i]? = some trx) (a sp : Nat) :
+    handleReq w i trx a sp [lit "POWEROFF"] =
+      { world := powerWorld w i trx false, out := [⟨trx.ctrlPort, a, sp, rspPowerOffOk⟩] } := by
+  unfold handleReq
+  rw [parseCmd_poweroff hw]
+  rfl
+
+theorem handleReq_other {w : World} {i : Nat} {trx : Trx} (a sp : Nat) {req : List Str}
+    (h1 : req ≠ [lit "POWERON"]) (h2 : req ≠ [lit "POWEROFF"]) :
+    Frame w (handleReq w i trx a sp req).world := by
+  unfold handleReq
+  split
+  next w' rc params hp =>
+    rw [parseCmd_eq] at hp
+    split at hp
+    · cases hp
+    next p res hc =>
+      rcases parseTail_cases hp with f | ⟨trx', on, -, -, hcc, -, -⟩
+      · exact (patched_frame w i p).trans f
+      · rcases commonCmd_power hcc with ⟨-, hv, -⟩ | ⟨-, hv, -⟩
+        · exact absurd ((verifyCmd_zero_iff _ _).mp hv) h1
+        · exact absurd ((verifyCmd_zero_iff _ _).mp hv) h2
+  · exact Frame.refl w
+  · exact Frame.refl w
+
+/-! ### classification of `step` -/
+
+theorem powerCmd_some {op : Op} {j : Nat} {on : Bool} (h : powerCmd op = some (j, on)) :
+    ∃ sp d, op = .ctrl j sp d ∧
+      ctrlRequest d = some [if on then lit "POWERON" else lit "POWEROFF"] := by
+  cases op with
+  | ctrl i sp d =>
+    simp only [powerCmd] at h
+    split at h
+    next v hv =>
+      split at h
+      next h1 => cases h; exact ⟨sp, d, rfl, by rw [hv, h1]; rfl⟩
+      next h1 =>
+        split at h
+        next h2 => cases h; exact ⟨sp, d, rfl, by rw [hv, h2]; rfl⟩
+        · cases h
+    · cases h
+  | data i d => cases h
+  | tick => cases h
+  | jump fn => cases h
+
+theorem powerCmd_ctrl_none {i sp : Nat} {d : List Nat} (h : powerCmd (.ctrl i sp d) = none) :
+    ∀ req, ctrlRequest d = some req → req ≠ [lit "POWERON"] ∧ req ≠ [lit "POWEROFF"] := by
+  intro req hr
+  simp only [powerCmd] at h
+  rw [hr] at h
+  constructor
+  · rintro rfl
+    simp at h
+  · rintro rfl
+    have : lit "POWEROFF" ≠ lit "POWERON" := by decide
+    simp [this] at h
+
+theorem step_ctrl {w : World} {i : Nat} {t : Trx} (hw : w.trxs[i]? = some t) (sp : Nat) (d : List Nat) :
+    step w (.ctrl i sp d) =
+      match ctrlRequest d with
+      | none => { world := w }
+      | some req => handleReq w i t t.addr sp req := by
+  simp only [step]
+  rw [hw]
+  exact handleRx_eq hw _ _ _
+
+theorem step_ctrl_missing {w : World} {i : Nat} (hw : w.trxs[i]? = none) (sp : Nat) (d : List Nat) :
+    step w (.ctrl i sp d) = { world := w, exc := some .indexError } := by
+  simp only [step]
+  rw [hw]
+
+/-- anything that is not a power command is a frame operation -/
+theorem step_no_power {w : World} {op : Op} (h : powerCmd op = none) : FrameC w (step w op).world := by
+  cases op with
+  | ctrl i sp d =>
+    cases hw : w.trxs[i]? with
+    | none => rw [step_ctrl_missing hw]; exact FrameC.refl w
+    | some t =>
+      rw [step_ctrl hw]
+      cases hr : ctrlRequest d with
+      | none => exact FrameC.refl w
+      | some req =>
+        obtain ⟨h1, h2⟩ := powerCmd_ctrl_none h req hr
+        exact (handleReq_other _ _ h1 h2).toC
+  | data i d => exact (recvDataMsg_frame w i d).toC
+  | tick => exact tick_frameC w
+  | jump fn => exact jump_frameC w fn
+
+theorem step_power_missing {w : World} {op : Op} {j : Nat} {on : Bool} (h : powerCmd op = some (j, on))
+    (hw : w.trxs[j]? = none) : step w op = { world := w, exc := some .indexError } := by
+  obtain ⟨sp, d, rfl, -⟩ := powerCmd_some h
+  exact step_ctrl_missing hw sp d
+
+theorem step_poweron {w : World} {op : Op} {j : Nat} {t : Trx} (h : powerCmd op = some (j, true))
+    (hw : w.trxs[j]? = some t) :
+    ∃ sp d, op = .ctrl j sp d ∧ step w op =
+      if accepted w j then
+        { world := powerWorld w j t true, out := [⟨t.ctrlPort, t.addr, sp, rspPowerOnOk⟩] }
+      else { world := w, out := [⟨t.ctrlPort, t.addr, sp, rspPowerOnFail⟩] } := by
+  obtain ⟨sp, d, rfl, hr⟩ := powerCmd_some h
+  refine ⟨sp, d, rfl, ?_⟩
+  rw [step_ctrl hw, hr]
+  exact handleReq_poweron hw _ _
+
+theorem step_poweroff {w : World} {op : Op} {j : Nat} {t : Trx} (h : powerCmd op = some (j, false))
+    (hw : w.trxs[j]? = some t) :
+    ∃ sp d, op = .ctrl j sp d ∧ step w op =
+      { world := powerWorld w j t false, out := [⟨t.ctrlPort, t.addr, sp, rspPowerOffOk⟩] } := by
+  obtain ⟨sp, d, rfl, hr⟩ := powerCmd_some h
+  refine ⟨sp, d, rfl, ?_⟩
+  rw [step_ctrl hw, hr]
+  exact handleReq_poweroff hw _ _
+
+
+/-! ### the wiring invariant depends on the wiring only -/
+
+theorem wiring_eq_iff (t t' : Trx) : wiring t = wiring t' ↔
+    t.addr = t'.addr ∧ t.basePort = t'.basePort ∧ t.childIdx = t'.childIdx ∧ t.childMgt = t'.childMgt ∧
+    t.hasClock = t'.hasClock ∧ t.children = t'.children := by
+  simp only [wiring, Prod.mk.injEq]
+
+theorem getElem?_wiring {ts ts' : List Trx} (h : ts'.map wiring = ts.map wiring) {i : Nat} {t' : Trx}
+    (ht : ts'[i]? = some t') : ∃ t, ts[i]? = some t ∧ wiring t = wiring t' := by
+  have h1 := getElem?_of_map_eq _ h i
+  rw [ht] at h1
+  cases hk : ts[i]? with
+  | none => rw [hk] at h1; cases h1
+  | some t =>
+    rw [hk] at h1
+    simp only [Option.map_some, Option.some.injEq] at h1
+    exact ⟨t, rfl, h1.symm⟩
+
+theorem WFT.of_wiring {ts ts' : List Trx} (h : ts'.map wiring = ts.map wiring) (wf : WFT ts) : WFT ts' := by
+  have hl : ts'.length = ts.length := length_of_map_eq _ h
+  have fwd : ∀ {i t'}, ts'[i]? = some t' → ∃ t, ts[i]? = some t ∧ wiring t = wiring t' :=
+    fun ht => getElem?_wiring h ht
+  have bwd : ∀ {i t}, ts[i]? = some t → ∃ t', ts'[i]? = some t' ∧ wiring t' = wiring t :=
+    fun ht => getElem?_wiring h.symm ht
+  constructor
+  · intro i hi t' ht' c hc
+    obtain ⟨t, ht, hw⟩ := fwd ht'
+    rw [wiring_eq_iff] at hw
+    obtain ⟨tc, htc, h1, h2, h3, h4⟩ := wf.child_ok i (hl ▸ hi) t ht c (by rw [hw.2.2.2.2.2]; exact hc)
+    obtain ⟨tc', htc', hw'⟩ := bwd htc
+    rw [wiring_eq_iff] at hw'
+    exact ⟨tc', htc', by omega, by rw [hw'.2.2.2.2.1]; exact h2, by omega, by omega⟩
+  · intro i hi t' ht' hne
+    obtain ⟨t, ht, hw⟩ := fwd ht'
+    rw [wiring_eq_iff] at hw
+    have := wf.parent_ok i (hl ▸ hi) t ht (by rw [hw.2.2.2.2.2]; exact hne)
+    exact ⟨by omega, by rw [← hw.2.2.2.2.1]; exact this.2⟩
+  · intro i hi t' ht'
+    obtain ⟨t, ht, hw⟩ := fwd ht'
+    rw [wiring_eq_iff] at hw
+    have := wf.clock_iff i (hl ▸ hi) t ht
+    rw [← hw.2.2.2.2.1, ← hw.2.2.1]; exact this
+  · intro c hc tc' htc' hpos
+    obtain ⟨tc, htc, hw⟩ := fwd htc'
+    rw [wiring_eq_iff] at hw
+    obtain ⟨p, hp, tp, htp, h1, h2, h3, h4⟩ := wf.child_has_parent c (hl ▸ hc) tc htc (by omega)
+    obtain ⟨tp', htp', hw'⟩ := bwd htp
+    rw [wiring_eq_iff] at hw'
+    exact ⟨p, hl ▸ hp, tp', htp', by rw [hw'.2.2.2.2.2]; exact h1, by omega, by omega, by omega⟩
+  · intro i hi j hj ti' hti' tj' htj' c hc1 hc2
+    obtain ⟨ti, hti, hwi⟩ := fwd hti'
+    obtain ⟨tj, htj, hwj⟩ := fwd htj'
+    rw [wiring_eq_iff] at hwi hwj
+    exact wf.one_parent i (hl ▸ hi) j (hl ▸ hj) ti hti tj htj c (by rw [hwi.2.2.2.2.2]; exact hc1)
+      (by rw [hwj.2.2.2.2.2]; exact hc2)
+  · intro i hi t' ht'
+    obtain ⟨t, ht, hw⟩ := fwd ht'
+    rw [wiring_eq_iff] at hw
+    rw [← hw.2.2.2.2.2]; exact wf.children_nodup i (hl ▸ hi) t ht
+  · intro i hi j hj ti' hti' tj' htj' h1 h2 h3
+    obtain ⟨ti, hti, hwi⟩ := fwd hti'
+    obtain ⟨tj, htj, hwj⟩ := fwd htj'
+    rw [wiring_eq_iff] at hwi hwj
+    exact wf.distinct i (hl ▸ hi) j (hl ▸ hj) ti hti tj htj (by omega) (by omega) (by omega)
+  · obtain ⟨t, ht, h1, h2, h3, h4, h5⟩ := wf.bts
+    obtain ⟨t', ht', hw⟩ := bwd ht
+    rw [wiring_eq_iff] at hw
+    exact ⟨t', ht', by omega, by omega, by omega, by rw [hw.2.2.2.1]; exact h4, by rw [hw.2.2.2.2.1]; exact h5⟩
+  · obtain ⟨t, ht, h1, h2, h3, h4, h5⟩ := wf.ms
+    obtain ⟨t', ht', hw⟩ := bwd ht
+    rw [wiring_eq_iff] at hw
+    exact ⟨t', ht', by omega, by omega, by omega, by rw [hw.2.2.2.1]; exact h4, by rw [hw.2.2.2.2.1]; exact h5⟩
+
 end OsmoVerif.WorldPower
